@@ -63,13 +63,21 @@ class BlockingExecutor(Executor):
         )
 
         try:
-            coerced_args = self.argument_values(field_definition, node)
-            resolved = resolver(
-                parent_value, self.context_value, info, **coerced_args
-            )
-        except (CoercionError, ResolverError) as err:
-            self.add_error(err, path, node)
-            return None
+            try:
+                coerced_args = self.argument_values(field_definition, node)
+            except CoercionError as err:
+                self.add_error(err, path, node)
+                return None
+
+            # Same as `Executor.resolve_field`: only ResolverError raised by
+            # the resolver itself is a field error, anything else propagates.
+            try:
+                resolved = resolver(
+                    parent_value, self.context_value, info, **coerced_args
+                )
+            except ResolverError as err:
+                self.add_error(err, path, node)
+                return None
         finally:
             self.instrumentation.on_field_end(
                 parent_value, self.context_value, info
